@@ -197,71 +197,60 @@ def tkey_(t):
 
 
 def _select_iff_given(ctx, f, pname):
-    """Sink-driven: every value the method returns or yields, with the
-    conditions under which it does (statement-level tests and conditional
-    expressions alike), evaluated for "columns is None" true and false."""
-    from ..chunks import Unknown, ev
+    """Sink-driven: every value the method returns or yields, in the copy of
+    the method specialised to ``columns is None`` and in the copy
+    specialised to "a list was given" (branches on that test pruned, so
+    statement-level tests, conditional expressions and re-bindings of the
+    frame are all followed on the right path)."""
+    from ..align import NOT_NONE
+    from ..defuse import specialise
     prog = ctx.prog
-    T = Terms(DefUse(prog, f))
-    cfg = CFG(f.node)
     P = ("param", pname)
 
     def is_select(t):
         return t[0] == "sub" and t[2] == P
 
-    alts = []       # (conditions, value term, node)
-
-    def expand(t, conds, node):
+    def phi_alts(t):
+        if t[0] == "phi":
+            return [y for x in t[1] for y in phi_alts(x)]
         if t[0] == "ifexp":
-            c, o = t[1], True
-            while c[0] == "un" and c[1] == "not":
-                c, o = c[2], not o
-            expand(t[2], conds + [(c, o)], node)
-            expand(t[3], conds + [(c, not o)], node)
-        elif t[0] == "phi":
-            for x in t[1]:
-                expand(x, conds, node)
-        else:
-            alts.append((conds, t, node))
+            return phi_alts(t[2]) + phi_alts(t[3])
+        return [t]
 
-    for n in walk_own(f.node):
-        if isinstance(n, (ast.Return, ast.Yield)) and n.value is not None:
-            expand(T.of(n.value), list(cond_terms(cfg, T, cfg.stmt_of(n))),
-                   n)
-    if not any(is_select(t) for _c, t, _n in alts):
+    def values(env_value):
+        fnode = specialise(f.node, {pname: env_value})
+        T = Terms(DefUse(prog, f, fnode=fnode))
+        out = []
+        for n in walk_own(fnode):
+            if isinstance(n, (ast.Return, ast.Yield)) and \
+                    n.value is not None:
+                t = T.of(n.value)
+                if env_value is None:
+                    # conditional expressions on the pruned test
+                    t = _resolve_none_tests(t, P, True)
+                else:
+                    t = _resolve_none_tests(t, P, False)
+                for x in phi_alts(t):
+                    out.append((x, n))
+        return out
+
+    def root(t):
+        """the object, whatever was stored into it on the way"""
+        while t[0] in ("store", "mut", "mutsub", "augstore", "delitem"):
+            t = t[1]
+        return t
+
+    when_none = values(None)
+    when_list = values(NOT_NONE)
+    if not any(is_select(t) for t, _n in when_none + when_list):
         return          # the list is forwarded, nothing is selected here
-    NONE = ("const", None)
-
-    def possible(conds, is_none):
-        def atoms(t):
-            if t[0] == "cmp" and t[1] in ("is", "is not", "==", "!=") and \
-                    {t[2], t[3]} == {P, NONE}:
-                return is_none if t[1] in ("is", "==") else not is_none
-            if t == P:
-                if is_none:
-                    return None
-                raise KeyError(t)
-            raise KeyError(t)
-        for c, o in conds:
-            try:
-                if bool(ev(c, atoms)) != o:
-                    return False
-            except (Unknown, KeyError, TypeError):
-                continue        # another test: either way
-        return True
-
-    when_none = [(t, n) for c, t, n in alts if possible(c, True)]
-    when_list = [(t, n) for c, t, n in alts if possible(c, False)]
     bad_none = [n for t, n in when_none if is_select(t)]
     bad_list = [n for t, n in when_list if not is_select(t)]
-    frames_none = {tkey_(t) for t, _n in when_none if not is_select(t)}
-    def phi_alts(t):
-        return [y for x in t[1] for y in phi_alts(x)] if t[0] == "phi" \
-            else [t]
-    frames_list = {tkey_(x) for t, _n in when_list if is_select(t)
+    frames_none = {tkey_(root(x)) for t, _n in when_none if not is_select(t)
+                   for x in phi_alts(t)}
+    frames_list = {tkey_(root(x)) for t, _n in when_list if is_select(t)
                    for x in phi_alts(t[1])}
     ok = not bad_none and not bad_list and frames_none == frames_list
-    node = (bad_none + bad_list + [f.node])[0]
     ctx.check(ok, "C13a-select-iff-columns-given", f,
               "the requested columns are selected iff a list was given, "
               "from the frame that is returned otherwise",
@@ -272,7 +261,25 @@ def _select_iff_given(ctx, f, pname):
               + (f"selected from {sorted(frames_list)} but returned "
                  f"unselected {sorted(frames_none)}"
                  if frames_none != frames_list else ""),
-              node=node)
+              node=f.node)
+
+
+def _resolve_none_tests(t, P, is_none):
+    """conditional expressions on ``P is None`` / ``P is not None`` resolved
+    for the valuation"""
+    NONE = ("const", None)
+
+    def f(x):
+        if x[0] == "ifexp":
+            c, neg = x[1], False
+            while c[0] == "un" and c[1] == "not":
+                c, neg = c[2], not neg
+            if c[0] == "cmp" and c[1] in ("is", "is not", "==", "!=") and \
+                    {c[2], c[3]} == {P, NONE}:
+                v = is_none if c[1] in ("is", "==") else not is_none
+                return x[2] if (v != neg) else x[3]
+        return x
+    return map_term(t, f)
 
 
 def _readers(ctx):
